@@ -49,12 +49,13 @@ def render (es : List Elem) : Bytes := join (es.map renderElem) [44]
 
 def isOWS (s : Bytes) : Bool := s.all fun c => c == 32 || c == 9
 def isToken (s : Bytes) : Bool := s != [] && s.all tchar
-/-- range: `type "/" subtype`, `type "/*"`, `"*/*"`, or a single token (charset, coding, language) -/
+/-- range: `type "/" subtype`, `type "/*"`, `"*/*"`, or a single token (charset, coding, language);
+    `/` is not a token byte, so the part after the first `/` contains no further one -/
 def isRange (s : Bytes) : Bool :=
-  match splitOn s 47 with
-  | [t] => isToken t
-  | [t, u] => isToken t && isToken u
-  | _ => false
+  let t := s.takeWhile (· != 47)
+  match s.drop t.length with
+  | [] => isToken t
+  | _ :: u => isToken t && isToken u
 
 /-- `qdtext` -/
 def qdtext (c : Nat) : Bool := c == 9 || c == 32 || c == 33 || (35 ≤ c && c ≤ 91) || (93 ≤ c && c ≤ 126) || (128 ≤ c && c ≤ 255)
@@ -72,7 +73,7 @@ def qvalue? : Bytes → Option Qual
   | [48] => some (.fin 0 0)
   | [49] => some (.fin 1 0)
   | 48 :: 46 :: ds => if ds.length ≤ 3 && ds.all isDigit then some (.fin (digitsVal ds) ds.length) else none
-  | 49 :: 46 :: ds => if ds.length ≤ 3 && ds.all (· == 48) then some (.fin 1 0) else none
+  | 49 :: 46 :: ds => if ds.length ≤ 3 && ds.all (· == 48) then some (.fin (10 ^ ds.length) ds.length) else none
   | _ => none
 
 def isWeight (p : Param) : Bool := toLower p.name == [113]
@@ -128,8 +129,9 @@ def denoteFrom : List Elem → Nat → List SRange
     | none => denoteFrom es (n + 1)
     | some r => r :: denoteFrom es (n + 1)
 
-/-- the ranges of the header that can select an offer (q = 0 removed), in header order -/
-def denote (es : List Elem) : List SRange := denoteFrom es 0
+/-- the ranges of the header that can select an offer (q = 0 removed), in header order; `pos` is the
+    1-based index of the list element -/
+def denote (es : List Elem) : List SRange := denoteFrom es 1
 
 /-! ### the selection rule -/
 
